@@ -60,13 +60,40 @@ let add_utf8 b cp =
     Buffer.add_char b (Char.chr (0x80 lor ((cp lsr 6) land 0x3F)));
     Buffer.add_char b (Char.chr (0x80 lor (cp land 0x3F))) end
 
+(* std::str::from_utf8: well-formed UTF-8 only (no overlongs, no surrogates, max U+10FFFF) *)
+let valid_utf8 (s : string) : bool =
+  let n = String.length s in
+  let c i = Char.code s.[i] in
+  let cont i = i < n && c i land 0xC0 = 0x80 in
+  let rec go i =
+    if i >= n then true
+    else
+      let b = c i in
+      if b < 0x80 then go (i + 1)
+      else if b >= 0xC2 && b <= 0xDF then cont (i + 1) && go (i + 2)
+      else if b = 0xE0 then i + 1 < n && c (i + 1) >= 0xA0 && c (i + 1) <= 0xBF && cont (i + 2) && go (i + 3)
+      else if b = 0xED then i + 1 < n && c (i + 1) >= 0x80 && c (i + 1) <= 0x9F && cont (i + 2) && go (i + 3)
+      else if b >= 0xE1 && b <= 0xEF then cont (i + 1) && cont (i + 2) && go (i + 3)
+      else if b = 0xF0 then i + 1 < n && c (i + 1) >= 0x90 && c (i + 1) <= 0xBF && cont (i + 2) && cont (i + 3) && go (i + 4)
+      else if b >= 0xF1 && b <= 0xF3 then cont (i + 1) && cont (i + 2) && cont (i + 3) && go (i + 4)
+      else if b = 0xF4 then i + 1 < n && c (i + 1) >= 0x80 && c (i + 1) <= 0x8F && cont (i + 2) && cont (i + 3) && go (i + 4)
+      else false in
+  go 0
+
+(* serde_json's reader (StrRead, no arbitrary_precision): strict RFC 8259, recursion limit 128,
+   numbers that overflow f64 are errors, lone surrogates are errors, raw control characters in
+   strings are errors, trailing characters are errors *)
 let parse_json (s : string) : json =
   let pos = ref 0 in
   let len = String.length s in
+  let depth = ref 128 in
   let peek () = if !pos < len then s.[!pos] else raise (Json_error "eof") in
   let skip_ws () =
     while !pos < len && (match s.[!pos] with ' ' | '\t' | '\n' | '\r' -> true | _ -> false) do incr pos done in
   let expect c = if peek () = c then incr pos else raise (Json_error (Printf.sprintf "expected %c at %d" c !pos)) in
+  let lit w = String.iter (fun c -> expect c) w in
+  let enter () = decr depth; if !depth = 0 then raise (Json_error "recursion limit") in
+  let leave () = incr depth in
   let hex4 () =
     let v = ref 0 in
     for _ = 1 to 4 do v := (!v lsl 4) lor hexdigit (peek ()); incr pos done; !v in
@@ -87,55 +114,80 @@ let parse_json (s : string) : json =
         | 'r' -> Buffer.add_char b '\r' | 't' -> Buffer.add_char b '\t'
         | 'u' ->
             let cp = hex4 () in
-            if cp >= 0xD800 && cp < 0xDC00 then begin
+            if cp >= 0xDC00 && cp < 0xE000 then raise (Json_error "lone trailing surrogate")
+            else if cp >= 0xD800 && cp < 0xDC00 then begin
               expect '\\'; expect 'u';
               let lo = hex4 () in
+              if lo < 0xDC00 || lo > 0xDFFF then raise (Json_error "lone leading surrogate");
               add_utf8 b (0x10000 + ((cp - 0xD800) lsl 10) + (lo - 0xDC00)) end
             else add_utf8 b cp
         | _ -> raise (Json_error "escape") end
+      else if Char.code c < 0x20 then raise (Json_error "control character in string")
       else Buffer.add_char b c
     done;
     Buffer.contents b in
+  let digits () =
+    let st = !pos in
+    while !pos < len && (match s.[!pos] with '0' .. '9' -> true | _ -> false) do incr pos done;
+    if !pos = st then raise (Json_error "digit expected") in
+  let number () : json =
+    let start = !pos in
+    if peek () = '-' then incr pos;
+    (match peek () with
+     | '0' -> incr pos; if !pos < len && (match s.[!pos] with '0' .. '9' -> true | _ -> false) then raise (Json_error "leading zero")
+     | '1' .. '9' -> digits ()
+     | _ -> raise (Json_error (Printf.sprintf "unexpected char at %d" !pos)));
+    let isfloat = ref false in
+    if !pos < len && s.[!pos] = '.' then (isfloat := true; incr pos; digits ());
+    if !pos < len && (s.[!pos] = 'e' || s.[!pos] = 'E') then begin
+      isfloat := true;
+      incr pos; if !pos < len && (s.[!pos] = '+' || s.[!pos] = '-') then incr pos; digits () end;
+    let txt = String.sub s start (!pos - start) in
+    (match classify_float (float_of_string txt) with FP_infinite | FP_nan -> raise (Json_error "number out of range") | _ -> ());
+    ignore !isfloat;
+    JNum (str_of_string txt) in
   let rec value () : json =
     skip_ws ();
     match peek () with
-    | 'n' -> pos := !pos + 4; JNull
-    | 't' -> pos := !pos + 4; JBool true
-    | 'f' -> pos := !pos + 5; JBool false
+    | 'n' -> lit "null"; JNull
+    | 't' -> lit "true"; JBool true
+    | 'f' -> lit "false"; JBool false
     | '"' -> JStr (str_of_string (parse_string ()))
     | '[' ->
+        enter ();
         incr pos; skip_ws ();
-        if peek () = ']' then (incr pos; JArr [])
-        else begin
-          let items = ref [] in
-          let fin = ref false in
-          while not !fin do
-            items := value () :: !items;
-            skip_ws ();
-            if peek () = ',' then incr pos else (expect ']'; fin := true)
-          done;
-          JArr (List.rev !items) end
+        let r =
+          if peek () = ']' then (incr pos; JArr [])
+          else begin
+            let items = ref [] in
+            let fin = ref false in
+            while not !fin do
+              items := value () :: !items;
+              skip_ws ();
+              if peek () = ',' then incr pos else (expect ']'; fin := true)
+            done;
+            JArr (List.rev !items) end in
+        leave (); r
     | '{' ->
+        enter ();
         incr pos; skip_ws ();
-        if peek () = '}' then (incr pos; JObj [])
-        else begin
-          let items = ref [] in
-          let fin = ref false in
-          while not !fin do
-            skip_ws ();
-            let k = parse_string () in
-            skip_ws (); expect ':';
-            let v = value () in
-            items := (str_of_string k, v) :: !items;
-            skip_ws ();
-            if peek () = ',' then incr pos else (expect '}'; fin := true)
-          done;
-          JObj (List.rev !items) end
-    | _ ->
-        let start = !pos in
-        while !pos < len && (match s.[!pos] with '0' .. '9' | '-' | '+' | '.' | 'e' | 'E' -> true | _ -> false) do incr pos done;
-        if !pos = start then raise (Json_error (Printf.sprintf "unexpected char at %d" start));
-        JNum (str_of_string (String.sub s start (!pos - start)))
+        let r =
+          if peek () = '}' then (incr pos; JObj [])
+          else begin
+            let items = ref [] in
+            let fin = ref false in
+            while not !fin do
+              skip_ws ();
+              let k = parse_string () in
+              skip_ws (); expect ':';
+              let v = value () in
+              items := (str_of_string k, v) :: !items;
+              skip_ws ();
+              if peek () = ',' then incr pos else (expect '}'; fin := true)
+            done;
+            JObj (List.rev !items) end in
+        leave (); r
+    | _ -> number ()
   in
   let v = value () in
   skip_ws ();
